@@ -1,10 +1,15 @@
 ﻿from nsl import Visitor
 
 
-def ValidateSwizzleMask(mask):
+def ValidateSwizzleMask(mask, componentCount=4):
     from .. import Utility, Errors
 
     if any([m not in "xyzwrgba" for m in mask]):
+        Errors.ERROR_INVALID_SWIZZLE_MASK.Raise()
+
+    # Every selected component must exist in the swizzled type
+    componentIndex = dict(zip("xyzwrgba", [0, 1, 2, 3, 0, 1, 2, 3]))
+    if any([componentIndex[m] >= componentCount for m in mask]):
         Errors.ERROR_INVALID_SWIZZLE_MASK.Raise()
 
     if Utility.ContainsAnyOf(mask, "xyzw") and Utility.ContainsAnyOf(
@@ -21,6 +26,7 @@ class ValidateSwizzleMaskVisitor(Visitor.DefaultVisitor):
     """Validate swizzle masks on vector types."""
 
     def __init__(self):
+        super().__init__()
         self.valid = True
 
     def v_MemberAccessExpression(self, expr, ctx=None):
@@ -28,9 +34,17 @@ class ValidateSwizzleMaskVisitor(Visitor.DefaultVisitor):
 
         t = expr.GetParent().GetType()
 
-        with nsl.Errors.CompileExceptionToErrorHandler(self.errorHandler):
+        def OnError():
+            self.valid = False
+
+        with nsl.Errors.CompileExceptionToErrorHandler(
+            self.errorHandler, OnError
+        ):
             if t.IsPrimitive() and (t.IsVector() or t.IsScalar()):
-                ValidateSwizzleMask(expr.GetMember())
+                componentCount = t.GetComponentCount() if t.IsVector() else 1
+                ValidateSwizzleMask(
+                    expr.GetMember().GetName(), componentCount
+                )
 
 
 def GetPass():
